@@ -35,7 +35,8 @@ FOREIGN = {'MemoryError': MemoryError, 'KeyboardInterrupt': KeyboardInterrupt}
 EXC_BY_NAME = dict({c.__name__: c for c in EXC_CLASSES}, **FOREIGN)
 
 SESSION_OPTS = {'optimistic': {}, 'immediate': {'immediate': True}, 'serializable': {'serializable': True},
-                'pessimistic': {'optimistic': False}}
+                'pessimistic': {'optimistic': False}, 'ddl': {'ddl': True}}
+PG_MODES = ('optimistic', 'immediate', 'serializable', 'pessimistic')
 
 
 class BodyError(Exception): pass
@@ -273,6 +274,10 @@ FIXED_PROGRAMS = [
     ('rawconn_read_only', 'optimistic', [['select'], ['rawconn_insert', 53, 1]]),
     ('rawconn_raise', 'optimistic', [['raw_select'], ['rawconn_insert', 54, 1], ['raise']]),
     ('rawconn_dup', 'optimistic', [['select'], ['rawconn_insert', 55, 1], ['raw_insert', 1, 99]]),
+    ('ddl_writes', 'ddl', [['raw_insert', 61, 1], ['create_T', 80]]),
+    ('ddl_commit_mid', 'ddl', [['raw_insert', 62, 1], ['commit'], ['create_T', 81], ['select']]),
+    ('ddl_read_write', 'ddl', [['select'], ['update_T', 1, 82], ['m2m_add', 3, 2]]),
+    ('ddl_raise', 'ddl', [['raw_update', 1, 12], ['raise']]),
     ('read_only', 'optimistic', [['select'], ['raw_select']]),
     ('empty', 'immediate', []),
 ]
@@ -390,7 +395,7 @@ def run_case(template, workdir, case):
     out = {'pre': pre, 'exc': type(exc).__name__ if exc is not None else None, 'exc_text': repr(exc)[:300] if exc is not None else None,
            'rollback_op': bool(st.get('rollback')), 'swallowed': st.get('swallowed', 0),
            'events': [{'call': e['call'], 'kind': e['kind'], 'con': e['con'], 'outcome': e['outcome'], 'injected': e['injected'],
-                       'sql': (e['sql'] or '')[:60], 'entry': e.get('entry'), 'flush_id': e.get('flush_id'), 'in_commit': e.get('in_commit'), 'locking': e.get('locking'),
+                       'sql': (e['sql'] or '')[:60], 'entry': e.get('entry'), 'flush_id': e.get('flush_id'), 'in_commit': e.get('in_commit'), 'locking': e.get('locking'), 'auto_flush': e.get('auto_flush'),
                        'stack': e.get('stack')} for e in events if e['i'] is not None],
            'rec': rec}
     moments = {f[0]: f[2] for f in case['faults']}
@@ -532,6 +537,7 @@ def attribute(ev):
             if ev.get('entry') is None and q in ENTRY_BY_QUALNAME: ev['entry'] = ENTRY_BY_QUALNAME[q]
             if q == 'SessionCache.flush' and ev.get('flush_id') is None: ev['flush_id'] = id(f)
             if q in COMMIT_FRAMES: ev['in_commit'] = True
+            if q == 'SessionCache.prepare_connection_for_query_execution' and ev.get('flush_id') is not None: ev['auto_flush'] = True
             if q == 'EntityMeta._find_in_db_' and f.f_locals.get('for_update'): ev['locking'] = True
             if q == 'Query._actual_fetch' and getattr(f.f_locals.get('query'), '_for_update', False): ev['locking'] = True
         f = f.f_back
@@ -545,11 +551,18 @@ def emit_request(case, obs):
     if case['faults'] or obs['exc'] is not None or obs['swallowed'] or obs['rollback_op']: return None
     if any(e['outcome'] != 'ok' for e in obs['events']): return None
     prog, real = [], []
-    cur = None                       # open flush group: [flush_id, in_commit, entries]
-    def close_group():
+    cur = None                       # open flush group: [flush_id, in_commit, entries, auto-flush inside prepare_connection]
+    def close_group(then=None):
+        """then: the statement whose prepare_connection ran this flush (auto-flush), as ['query'|'lockQuery'] or ['direct', entry]"""
         nonlocal cur
         if cur is not None:
+            if cur[3] and then is not None:
+                if then[0] == 'direct': prog.append([['flushDirect', cur[2], then[1]], False])
+                else: prog.append([['flushQuery', cur[2], then[0] == 'lockQuery'], False])
+                cur = None
+                return True
             prog.append([['commit' if cur[1] else 'flush', cur[2]], False]); cur = None
+        return False
     for e in obs['events']:
         call, kind = e['call'], e['kind']
         if call == 'cursor' or (kind or '').startswith('pragma'): continue
@@ -565,20 +578,56 @@ def emit_request(case, obs):
         write = call == 'executemany' or kind in ('insert', 'update', 'delete')
         real.append(['write' if write else 'read', True])
         if not write:
-            if e['flush_id'] is None: close_group(); prog.append([['lockQuery' if e.get('locking') else 'query'], False])
+            if e['flush_id'] is None:
+                q = ['lockQuery' if e.get('locking') else 'query']
+                if not close_group(q): prog.append([q, False])
             else:
                 return None          # a query from a hook inside flush: not an op of the model
             continue
         if e['entry'] is None: return 'unknown-entry'
         if e['flush_id'] is not None:
             if cur is None or cur[0] != e['flush_id']:
-                close_group(); cur = [e['flush_id'], bool(e['in_commit']), []]
+                close_group(); cur = [e['flush_id'], bool(e['in_commit']), [], bool(e.get('auto_flush'))]
             cur[2].append(e['entry'])
         else:
-            close_group(); prog.append([['direct', e['entry']], False])
+            if not close_group(['direct', e['entry']]): prog.append([['direct', e['entry']], False])
     close_group()
     si = SESSION_OPTS[case['opts']] != {}
-    return {'op': 'emit', 'si': si, 'pool': bool(case['warm']), 'bodyRaises': False, 'faults': [], 'prog': prog}, real
+    return {'op': 'emit', 'si': si, 'ddl': case['opts'] == 'ddl', 'pool': bool(case['warm']), 'bodyRaises': False, 'faults': [], 'prog': prog}, real
+
+
+STMT_LEVEL = ('connect', 'begin', 'read', 'write', 'commit', 'rollback', 'close')
+
+
+def project_events(obs):
+    """the real calls in the alphabet of the emitter: [[kind, ok]..]; None when a call the emitter does not have (cursor(),
+    a PRAGMA of a new connection) failed"""
+    out = []
+    for e in obs['events']:
+        call, kind, ok = e['call'], e['kind'], e['outcome'] == 'ok'
+        if call == 'cursor' or (kind or '').startswith('pragma'):
+            if not ok: return None
+            continue
+        if call in ('connect', 'commit', 'rollback', 'close'): out.append([call, ok])
+        elif kind == 'begin': out.append(['begin', ok])
+        else: out.append(['write' if (call == 'executemany' or kind in ('insert', 'update', 'delete')) else 'read', ok])
+    return out
+
+
+def emit_request_fault(case, obs, base_req):
+    """a run with injected faults against the emitter: the program is the one reconstructed from the fault-free parent run, the
+    failure oracle is "the k-th statement-level call raises" read off the real run (close() never asks the oracle)"""
+    if any(f[2] == 'after' or f[1] in FOREIGN for f in case['faults']): return None
+    real = project_events(obs)
+    if real is None: return None
+    if any(e['call'] == 'close' and e['outcome'] != 'ok' for e in obs['events']): return None
+    faults, k = [], 0
+    for kind, ok in real:
+        if kind == 'close': continue
+        if not ok: faults.append(k)
+        k += 1
+    if not faults: return None
+    return dict(base_req, faults=faults), real
 
 
 # ---------------------------------------------------------------------------------------------------------------------
@@ -810,7 +859,7 @@ def pg_part(ctx):
     progs += [pg_program(rng) for _ in range(ctx.scale(25, 200))]
     cases = []
     for prog in progs:
-        for mode in SESSION_OPTS: cases.append((prog, mode, {}))
+        for mode in PG_MODES: cases.append((prog, mode, {}))
     reqs, meta = [], []
     def one(prog, mode, fail):
         rec['log'] = []; rec['n'] = 0; rec['fail'] = dict(fail)
@@ -919,7 +968,7 @@ def check_entry_points(ctx, cases, res):
     """(1) every write statement the real code sends comes from a function of the entry-point table;
        (2) for fault-free runs the emitter of Model/TxnEmit.lean, instantiated with the table regenerated from the source,
            sends the same connect / read / begin / write / commit / rollback sequence as the real session"""
-    reqs, meta = [], []
+    reqs, meta, base_req = [], [], {}
     for c in cases:
         obs = res[c['id']]
         for e in obs['events']:
@@ -933,11 +982,18 @@ def check_entry_points(ctx, cases, res):
                     ctx.divergence('a many-to-many statement is sent outside SessionCache.flush', case_json(c), impl={'sql': e['sql'], 'stack': e['stack']})
         r = emit_request(c, obs)
         if r is None or r == 'unknown-entry': continue
+        base_req[c['id']] = r[0]
+        reqs.append(r[0]); meta.append((c, r[1]))
+    # runs with injected faults: same program (from the fault-free parent), failure oracle read off the real run
+    for c in cases:
+        if not c['faults'] or c.get('parent') not in base_req: continue
+        r = emit_request_fault(c, res[c['id']], base_req[c['parent']])
+        if r is None: continue
         reqs.append(r[0]); meta.append((c, r[1]))
     if not reqs or not ctx.driver.ok: return
     outs = ctx.driver('C17', reqs)
     for (c, real), rq, m in zip(meta, reqs, outs):
-        ctx.count('emit-compared')
+        ctx.count('emit-compared' + (':faults' if c['faults'] else ':fault-free'))
         if 'driver_error' in m:
             ctx.divergence('driver error (emit)', case_json(c), model=m); continue
         if m['events'] != real:
